@@ -1,7 +1,8 @@
 //! C19: tracker replies (part 1) and the real Session against a scripted loopback tracker (part 2).
 use crate::tr::serve_one;
 use crate::util::*;
-use rdest::Metainfo;
+use rdest::verif::*;
+use rdest::{Metainfo, TrackerClient};
 use std::io::{Read, Write};
 
 fn resp_err_tag(e: &rdest::Error) -> String {
@@ -40,7 +41,9 @@ fn tracker_reply(ports: &[u16]) -> Vec<u8> {
     let mut b = b"d8:intervali1800e5:peersl".to_vec();
     for (i, p) in ports.iter().enumerate() {
         b.extend_from_slice(b"d2:ip9:127.0.0.17:peer id20:");
-        b.extend_from_slice(format!("-FAKE0-{:013}", i).as_bytes());
+        // peer ids are arbitrary bytes (Azureus style: a readable prefix, then random bytes)
+        b.extend_from_slice(b"-FK0100-");
+        b.extend_from_slice(&[0xff, 0xfe, 0x80, 0x00, 0xc3, 0x28, 0xed, 0xa0, 0x80, 0x9f, 0x0a, i as u8]);
         b.extend_from_slice(format!("4:porti{}ee", p).as_bytes());
     }
     b.extend_from_slice(b"ee");
@@ -200,7 +203,58 @@ pub fn run19(args: &[&str]) -> String {
     match args[0] {
         "resp" => op_resp(&unhex(args[1])),
         "e2e" => op_e2e(args[1], args[2], args[3]),
+        "fetch" => op_fetch(args[1].parse().unwrap(), &unhex(args[2])),
         _ => panic!("unknown C19 op"),
+    }
+}
+
+/// `fetch <status> <body>`: one announce of the real `TrackerClient::run` answered on the loopback with that status and
+/// body; what the task tells the manager first → `resp ok <peers>` | `fail`.
+fn op_fetch(status: u16, body: &[u8]) -> String {
+    let listener = std::net::TcpListener::bind("127.0.0.1:0").expect("bind");
+    let port = listener.local_addr().unwrap().port();
+    let doc = format!(
+        "d8:announce{}:http://127.0.0.1:{}/a4:infod6:lengthi16e4:name1:N12:piece lengthi16e6:pieces20:AAAAABBBBBCCCCCDDDDDee",
+        format!("http://127.0.0.1:{}/a", port).len(),
+        port
+    );
+    let m = Metainfo::from_bencode(doc.as_bytes()).expect("metainfo");
+    let reason = match status {
+        200 => "OK",
+        201 => "Created",
+        202 => "Accepted",
+        400 => "Bad Request",
+        403 => "Forbidden",
+        404 => "Not Found",
+        500 => "Internal Server Error",
+        _ => "Service Unavailable",
+    };
+    let status_line = format!("{} {}", status, reason);
+    let body2 = body.to_vec();
+    let server = std::thread::spawn(move || serve_one(&listener, &status_line, &body2));
+    let rt = tokio::runtime::Builder::new_current_thread().enable_all().build().unwrap();
+    let got = rt.block_on(async move {
+        let (tx, mut rx) = tokio::sync::mpsc::channel::<TrackerCmd>(8);
+        let mut client = TrackerClient::new(b"-VERIF-0000000000001", m, tx);
+        let task = tokio::spawn(async move { client.run().await });
+        let r = tokio::time::timeout(std::time::Duration::from_secs(10), rx.recv()).await;
+        task.abort();
+        match r {
+            Ok(Some(TrackerCmd::TrackerResp(resp))) => match catch(|| resp.peers()) {
+                Err(()) => "resp P".to_string(),
+                Ok(ps) => {
+                    let v: Vec<String> = ps.iter().map(|(a, id)| format!("{}={}", hex(a.as_bytes()), hex(id))).collect();
+                    format!("resp ok {}", if v.is_empty() { "-".to_string() } else { v.join(",") })
+                }
+            },
+            Ok(Some(TrackerCmd::Fail(_))) => "fail".to_string(),
+            _ => "timeout".to_string(),
+        }
+    });
+    drop(rt);
+    match server.join() {
+        Ok(Some(_)) => got,
+        _ => "noreq".to_string(),
     }
 }
 
@@ -306,6 +360,20 @@ pub fn gen19(r: &mut Rng, n: usize, thorough: bool) -> Vec<String> {
         } else if thorough && k < 5 {
             // the last one: more failed announces than the command channel holds (about 70 s of real time)
             out.push(["e2e 0 g 3", "e2e 1 f 1", "e2e 3 cnh 2", "e2e 2 fg 12", "e2e 67 gfhn 1"][k].to_string());
+        } else if k % 16 == 15 {
+            // the same replies through a real HTTP exchange (status, body bytes) into the client task
+            let status = *r.pick(&[200u16, 200, 200, 200, 200, 201, 202, 400, 403, 404, 500, 503]);
+            let mut body = gen_reply(r);
+            if r.chance(2, 3) {
+                // mostly replies that parse (their peer ids are random bytes)
+                for _ in 0..6 {
+                    if matches!(catch(|| rdest::TrackerResp::from_bencode(&body)), Ok(Ok(_))) {
+                        break;
+                    }
+                    body = gen_reply(r);
+                }
+            }
+            out.push(format!("fetch {} {}", status, hex(&body)));
         } else {
             out.push(format!("resp {}", hex(&gen_reply(r))));
         }
